@@ -119,6 +119,7 @@ def generate(ctx):
     r = ctx.rng
     ds = common.docs(ctx, ctx.scale(700, 30000), finite=False)
     ctx.pairs = []
+    ctx.mixed = []
     for t in (b'nul', b'[1,', b'tru e', b'@@', b'{"a"}'):
         ctx.add('convert_to_comparable %s' % gen.hexarg(t), kind='invalid-text')    # INVALID_LEVEL branch (tie only)
         ctx.add('convert_to_comparable@c0ffee %s' % gen.hexarg(t), kind='invalid-text')
@@ -128,6 +129,14 @@ def generate(ctx):
         ids = (ctx.add('convert_to_comparable %s' % ea).id, ctx.add('convert_to_comparable %s' % eb).id,
                ctx.add('compare %s %s' % (ea, eb)).id)
         ctx.pairs.append((a, b, ids))
+        # the same pair with one side given as JSON TEXT (both functions accept either form): the key of a text is the key of
+        # its encoding and compare answers the same whichever side is text (a seeded change swapped the operands when the text
+        # is the RIGHT argument and forgot to reverse the answer)
+        if gen.is_finite(a) and gen.is_finite(b) and r.random() < 0.4:
+            ta, tb = gen.hexarg(gen.json_text(a, r)), gen.hexarg(gen.json_text(b, r))
+            if not ta.startswith('20') and not tb.startswith('20'):
+                ctx.mixed.append((a, b, ids, (ctx.add('convert_to_comparable %s' % ta).id, ctx.add('convert_to_comparable %s' % tb).id,
+                                              ctx.add('compare %s %s' % (ea, tb)).id, ctx.add('compare %s %s' % (ta, eb)).id)))
     # strings / keys of 255 .. 65536 bytes and containers of 255 .. 1000 members against copies that differ at the very end
     # (sizes.py; second review H2): the keys must order them as compare does (all of them are inside the proved class)
     for lab, v in sizes.string_docs() + sizes.container_docs():
@@ -221,6 +230,16 @@ def judge(ctx):
             ctx.violate('the judge\'s mirror of key_safe_doc disagrees with the extracted CmpKey.key_safe_doc',
                         case=gen.vtext(docs[h]), expected_by_model=out.get('k%d' % i, 'missing'), observed=want)
     ctx.count('documents_classified_by_the_extracted_key_safe_doc', None, len(keys))
+    for a, b, ids, tids in ctx.mixed:
+        ka, kb, c = [impl.get(i, 'missing') for i in ids]
+        kta, ktb, c_bt, c_tb = [impl.get(i, 'missing') for i in tids]
+        ctx.count('pairs_with_one_side_as_json_text')
+        if (kta, ktb) != (ka, kb):
+            ctx.violate('the comparable key of a JSON text differs from the key of its encoding', case=[gen.vtext(a), gen.vtext(b)],
+                        observed={'keys_of_encodings': [ka, kb], 'keys_of_texts': [kta, ktb]})
+        if c_bt != c or c_tb != c:
+            ctx.violate('compare answers differently when one side is given as JSON text, so it no longer agrees with the order of the keys',
+                        case=[gen.vtext(a), gen.vtext(b)], observed={'compare(jsonb, jsonb)': c, 'compare(jsonb, text)': c_bt, 'compare(text, jsonb)': c_tb})
     for a, b, ids in ctx.pairs:
         ka, kb, c = [impl.get(i, 'missing') for i in ids]
         if not (ka.startswith('ok ') and kb.startswith('ok ') and c.startswith('ok =')):
